@@ -90,9 +90,9 @@ class Operator(Token):
     def ast(self, tokens, stack, builder):
         super(Operator, self).ast(tokens, stack, builder)
         self.update_name(tokens, stack)
-        if self.get_n_args == 2 and isinstance(
+        if (self.get_n_args == 2 or self.name == '%') and isinstance(
                 tokens[max(tokens.index(self) - 1, 0)], Separator
-        ):  # E.g., `=SUM(1,*2)`: the left operand is missing.
+        ):  # E.g., `=SUM(1,*2)` or `=SUM(1,%)`: the left operand is missing.
             raise FormulaError()
         pred = self.pred
         while stack and isinstance(stack[-1], Operator):
